@@ -274,6 +274,16 @@ Theorem multipoint_first_node_refuted : exists cs j s, (j < length cs)%nat /\ 0 
   map (proj_rec 1 cs j) (mrecords cs (mtrace 1 cs s)) <> zrecords (ztrace (map (fun x => at_ j cs * x) s)).
 Proof. exists [1; 3], 1%nat, [-1; -3; -3]. split; [cbn; lia|]. split; [reflexivity|]. vm_compute. discriminate. Qed.
 
+(* the hypothesis of the variants theorem is satisfiable in every variant (and non-trivially so: rows are produced) *)
+Example variants_hyp_sat : forall pwc pwl,
+  cmp_agree_v [1; 3] 1 pwc pwl (mzero [1; 3]) (mzero [1; 3]) (mtrace 1 [1; 3] [1; -3; 2; -1]) /\
+  mrecords_v [1; 3] pwc pwl (mtrace 1 [1; 3] [1; -3; 2; -1]) <> [].
+Proof. intros [|] [|]; (split; [vm_compute; repeat split; intros; try discriminate; reflexivity|vm_compute; discriminate]). Qed.
+Example chunked_hyp_sat :
+  cmp_agree_v [1; 3] 1 false false (mzero [1; 3]) (mzero [1; 3]) (mctrace 1 [1; 3] [([0; 1; -3; 2], false); ([-1; 3; -4; 1], true)]) /\
+  mrecords_v [1; 3] false false (mctrace 1 [1; 3] [([0; 1; -3; 2], false); ([-1; 3; -4; 1], true)]) <> [].
+Proof. split; [vm_compute; repeat split; intros; reflexivity|vm_compute; discriminate]. Qed.
+
 Example multipoint_hyp_sat :
   cmp_agree (list Z) Z vltb Z.ltb (at_ 1) (mzero [1; 3]) (mzero [1; 3]) (mtrace 1 [1; 3] [1; -3; 2; -1]) /\
   mrecords [1; 3] (mtrace 1 [1; 3] [1; -3; 2; -1]) <> [].
